@@ -1,6 +1,7 @@
 package main
 
 import (
+	"strings"
 	"fmt"
 	"time"
 
@@ -20,6 +21,7 @@ type crashHist struct {
 	name   string // random / template name
 	stmts  []*proto.Stmt
 	flush  []bool // flush after statement i
+	noise  map[int]*proto.Stmt // a statement that has to FAIL, issued right after statement i
 	reopen []bool // clean close + reopen after statement i
 	class  string // never always mixed
 }
@@ -114,8 +116,21 @@ func buildCrashHist(c *core.Ctx, idx int) *crashHist {
 	}
 	ch := &crashHist{idx: idx, name: "random"}
 	n := r.Range(10, 60)
+	ch.noise = map[int]*proto.Stmt{}
 	for i := 0; i < n; i++ {
 		ch.stmts = append(ch.stmts, h.Next())
+		if r.Chance(1, 8) {
+			// a statement that is refused, between two that are not: it must
+			// leave nothing behind - also nothing that only shows when a later
+			// statement's effects are rebuilt from the log
+			cause := c14Causes[r.Intn(len(c14Causes))]
+			if r.Chance(1, 3) {
+				cause = "create-name-too-long"
+			}
+			if fs := genFailing(r, h, cause); fs != nil && fs.st != nil && cause != "where-type" && !strings.HasPrefix(cause, "update-") {
+				ch.noise[i] = fs.st
+			}
+		}
 	}
 	return ch
 }
@@ -143,7 +158,7 @@ func (ch *crashHist) schedule(r *core.Rand, class int) {
 
 func checkC02(c *core.Ctx) []core.Floor {
 	c.Level = "fault_enumeration"
-	c.Rule = "seeded DDL/DML histories (10-60 statements, 1-3 tables) plus scenario templates; EVERY statement boundary of every history is a crash point (image of the data directory with the timer off = state a kill -9 leaves); flush schedule per history: never / after every statement / random subset + clean reopen. Each image is recovered in a fresh process and SELECT * of every table + catalog is compared with the model after that statement; recovery is run a second time; then 3-8 further statements (with up to 2 more crash/recover cycles) are checked against the model incl. row-id rules. A sample is cross-validated with a real SIGKILL. Distinct = image (history, boundary, schedule); non-trivial = recovery actually replayed at least one log record."
+	c.Rule = "seeded DDL/DML histories (10-60 statements, 1-3 tables; one statement in eight is followed by a statement that is refused - over-long names, duplicate table, type / range / size / column-count errors, repeated columns - and must leave nothing behind, also nothing that only shows when later statements are rebuilt from the log) plus scenario templates; EVERY statement boundary of every history is a crash point (image of the data directory with the timer off = state a kill -9 leaves); flush schedule per history: never / after every statement / random subset + clean reopen. Each image is recovered in a fresh process and SELECT * of every table + catalog is compared with the model after that statement; recovery is run a second time; then 3-8 further statements (with up to 2 more crash/recover cycles) are checked against the model incl. row-id rules. A sample is cross-validated with a real SIGKILL. Distinct = image (history, boundary, schedule); non-trivial = recovery actually replayed at least one log record."
 	c.Assume = []string{"process-death crash model: completed write(2) calls survive, as the property states", "image = copy of data/ taken between statements with the flush timer off; cross-validated against real SIGKILL on a sample"}
 	drv := mustDriver(c, false)
 	nRandom, kill := 300, 20
@@ -197,6 +212,9 @@ func crashPhase1(c *core.Ctx, drv, dir string, ch *crashHist, withImages bool, k
 	add(proto.Op{K: "sql", SQL: "USE d1"}, meta{kind: "other"})
 	for i, st := range ch.stmts {
 		add(proto.Op{K: "stmt", Stmt: st}, meta{kind: "stmt", i: i})
+		if ns := ch.noise[i]; ns != nil {
+			add(proto.Op{K: "stmt", Stmt: ns}, meta{kind: "noise", i: i})
+		}
 		if ch.flush[i] {
 			add(proto.Op{K: "flush"}, meta{kind: "other"})
 		}
@@ -226,6 +244,14 @@ func crashPhase1(c *core.Ctx, drv, dir string, ch *crashHist, withImages bool, k
 	grave := model.Graveyard{}
 	snaps = make([]*model.DB, len(ch.stmts))
 	for k, r := range out.Res {
+		if mt[k].kind == "noise" {
+			if r.Panic != "" || r.Err == "" {
+				c.Inconclusive("phase1", fmt.Sprintf("history %d: the statement meant to be refused was not (C14's / C18's business): %s%s", ch.idx, r.Err, r.Panic))
+				return nil, false
+			}
+			c.Count("refused_statements_inside_histories", 1)
+			continue
+		}
 		if r.Failed() {
 			c.Inconclusive("phase1", fmt.Sprintf("uncrashed run of history %d (%s): op %s failed: %s%s", ch.idx, ch.name, s.ops[k].K, r.Err, r.Panic))
 			return nil, false
